@@ -15,6 +15,18 @@ D = decimal.Decimal
 ASSUMPTIONS = [
     'inner targets are aliased with distinct names (duplicate output names in a subquery collapse to one column: recorded finding)',
     'the harness types the inner result columns itself from its generator',
+    'translator tie (C08_source_*): coq/Gen/SrcSubquery.v is regenerated from the source of SubqueryTable.__init__ / '
+    '__iter__, EvalConstantSubquery1D.__init__ / __call__, EvalBinaryOp.__call__ and the functions the registered IN / '
+    'NOT IN overloads wrap on every run (harness/vf/src_subquery.py; rules Q1-Q5 there: {} and self.a[k] = v as a '
+    'functional insertion-ordered dict, self.m(..) of a staticmethod and query_execute.execute_query as opaque callables, '
+    'the module-level sentinel MARKER as an opaque reference compared by identity); the column factory SubqueryTable.column '
+    '(a class statement inside a function) is not interpreted: its AST must have the shape `class C(EvalColumn): '
+    'def __init__(self): super().__init__(<param>); __call__ = staticmethod(operator.itemgetter(<param>))` and which '
+    'parameters those are is emitted as data and compared in Coq; trusted: the PyMini semantics (Model/PyMini.v, extended '
+    'by identity between opaque references), the encodings and library semantics of Model/PrimsSubquery.v (dict = '
+    'insertion-ordered association list with == on keys, enumerate, iter, operator.contains on a list = some item == x), '
+    'that execute_query returns (columns, rows) with rows as the theorems state (an explicit hypothesis), that a compiled '
+    'expression exposes its datatype as .dtype',
 ]
 IMPORTS = c01.IMPORTS + ['Model.Subquery']
 
@@ -394,6 +406,16 @@ def run_in_shaped_impl(c):
 def dup_in_cut(c, inner_rows):
     """Does the LIMIT of the inner query keep a value twice (what a forced DISTINCT would change)?"""
     return c['limit'] is not None and not c['distinct'] and len(inner_rows) != len({repr(r) for r in inner_rows})
+
+
+def generate():
+    """translator tie: regenerate coq/Gen/SrcSubquery.v from the source of the imported beanquery.query_compile (py2mini +
+    the rules and the structural reading of the column factory in src_subquery.py)"""
+    from . import gen_src, src_subquery
+    out = dict(gen_src.generate('subquery'))
+    out['src_subquery_rules_used'] = list(src_subquery.SubqueryGroup.info.get('rules_used', []))
+    out['src_subquery_column_factory'] = dict(src_subquery.SubqueryGroup.info.get('column_factory', {}))
+    return out
 
 
 def run(tier, rng):
